@@ -220,6 +220,17 @@ func main() {
 		scs = append(scs, sc)
 		allow[sc.Name] = true
 	}
+	// the Warnings channel is optional: every single-event history once more for an application that did not set
+	// one (what would have been surfaced there is dropped; nothing may block on it)
+	for _, e := range al {
+		base := scenarioFor([]ev{e})
+		nw := *base
+		nw.Name = "W" + base.Name[1:] // W[...]: no warnings channel
+		nw.NoWarnings = true
+		delete(expect, nw.Name)
+		scs = append(scs, &nw)
+		allow[nw.Name] = true
+	}
 	// freshly keyed session: the requests of the key exchange were registered like any other, so their msg_ids
 	// are "already answered ids" of this process; a server message addressed to one of them must be as
 	// harmless as one for an unknown id
@@ -267,6 +278,9 @@ func main() {
 			d := max(D-strings.Count(sc.Name, " ; "), 0)
 			if sc.Name == "H[close ; close]" {
 				d = D // the second reconnect is where a leaked routine of the first one shows: full delay bound
+			}
+			if strings.HasPrefix(sc.Name, "W[") {
+				d = max(d-1, 0) // same histories as H[...], one delay less
 			}
 			if strings.HasPrefix(sc.Name, "F[") {
 				d = max(d-1, 0) // every execution repeats the key exchange
